@@ -41,3 +41,22 @@ func ZZ_C38_keypair() {
 	nd.Reach("generated")
 	nd.Assert(nd.FromSecureSourceOnly(priv), "private_key_comes_from_the_secure_source_only")
 }
+
+// ZZ_C38_nonce_fresh: every signing nonce draws its own output of the
+// operating system's generator: over 6 consecutive draws of 32 bytes (more
+// than any buffer of 128 bytes holds) no draw depends on an insecure source
+// and no two draws are the same bytes on every run (a replayed buffer is not
+// output of the generator).
+func ZZ_C38_nonce_fresh() {
+	var draws [][]byte
+	for i := 0; i < 6; i++ {
+		draws = append(draws, randomBytes(32))
+	}
+	nd.Reach("drawn")
+	for i := range draws {
+		nd.Assert(nd.FromSecureSourceOnly(draws[i]), "nonce_randomness_comes_from_the_secure_source_only")
+		for j := 0; j < i; j++ {
+			nd.Assert(nd.CanDiffer(draws[i], draws[j]), "each_nonce_draws_fresh_output_of_the_secure_source")
+		}
+	}
+}
